@@ -453,6 +453,145 @@ example : Model.Inst.instantiate ⟨[⟨1, none, [], true, [], [7]⟩, ⟨2, som
 example : Model.Inst.instantiate ⟨[⟨1, none, [], true, [], [7]⟩, ⟨2, some 1, [], false, [], []⟩], []⟩ 2 = .missing := by
   decide
 
+/-! ## enforcement has no memory: the verdict recurs on every attempt, whatever came before
+
+The matrices probe each enforcement point once. These theorems say what the model guarantees for *sequences*
+of attempts within one VM, and the harness's history stream holds the interpreter against them (same site
+twice, another site, after a caught denial, after a legitimate access, interleaved with other classes). -/
+
+/-- **C07_verdict_state_independent.** The outcome kind of one access is `verdict`: a function of the site and
+the operation, the same from every store. -/
+theorem C07_verdict_state_independent (T : Table) (H : Hier) (s : Site) (σ : Store) (op : Op) :
+    (exec T H s σ op).1.out = verdict T H ⟨s, op⟩ := by
+  cases op with
+  | read k =>
+    unfold exec verdict
+    cases hd : decide T H s <;> simp [Res.out]
+  | write k v ok =>
+    unfold exec verdict
+    cases ok with
+    | false => simp [Res.out]
+    | true => cases hd : decide T H s <;> simp [Res.out]
+  | call k =>
+    unfold exec verdict
+    cases hd : decide T H s <;> simp [Res.out]
+
+/-- **C07_history_independent.** In any sequence of accesses run on one store, from any initial store, the
+k-th outcome is the verdict of the k-th access alone. -/
+theorem C07_history_independent (T : Table) (H : Hier) : ∀ (steps : List Step) (σ : Store),
+    ((run T H σ steps).1).map Res.out = steps.map (verdict T H)
+  | [], _ => rfl
+  | st :: rest, σ => by
+    simp only [run, List.map_cons]
+    rw [C07_verdict_state_independent, C07_history_independent T H rest]
+
+/-- **C07_enforcement_recurs.** After any two histories (from any two stores) the same access gets the same
+outcome: a denial recurs on every later attempt, and so does a grant. -/
+theorem C07_enforcement_recurs (T : Table) (H : Hier) (pre₁ pre₂ : List Step) (σ₁ σ₂ : Store) (st : Step) :
+    (exec T H st.site (run T H σ₁ pre₁).2 st.op).1.out = (exec T H st.site (run T H σ₂ pre₂).2 st.op).1.out := by
+  rw [C07_verdict_state_independent, C07_verdict_state_independent]
+
+/-- **C07_sequence_effect_exact.** The store after a sequence of attempts is the initial store plus exactly
+the effects of the allowed ones, in order; the denied attempts, however many and wherever they stand, leave
+no trace. -/
+theorem C07_sequence_effect_exact (T : Table) (H : Hier) : ∀ (steps : List Step) (σ : Store),
+    (run T H σ steps).2 = effects T H σ steps
+  | [], _ => rfl
+  | st :: rest, σ => by
+    simp only [run]
+    rw [C07_sequence_effect_exact T H rest, exec_store]
+    unfold effects
+    by_cases hv : verdict T H st = .allowed
+    · simp [hv]
+    · simp [hv]
+
+/-- **C07_denied_sequence_no_effect.** Any number of denied attempts in a row changes nothing. -/
+theorem C07_denied_sequence_no_effect (T : Table) (H : Hier) (steps : List Step) (σ : Store)
+    (h : ∀ st ∈ steps, verdict T H st ≠ .allowed) : (run T H σ steps).2 = σ := by
+  rw [C07_sequence_effect_exact]
+  unfold effects
+  have : steps.filter (fun st => verdict T H st == .allowed) = [] := by
+    apply List.filter_eq_nil_iff.mpr
+    intro st hst
+    simp [h st hst]
+  rw [this]
+  rfl
+
+example : ((run pinned [⟨1, none, []⟩] ⟨fun _ => 1, fun _ => 0⟩
+    [⟨⟨.propWrite, .other, .priv, none, none, 1, 1⟩, .write 0 2 true⟩,
+     ⟨⟨.propWrite, .other, .priv, some 1, some 1, 1, 1⟩, .write 0 3 true⟩,
+     ⟨⟨.propWrite, .other, .priv, none, none, 1, 1⟩, .write 0 4 true⟩]).1).map Res.out
+    = [.denied, .allowed, .denied] := by decide
+
+/-- **C07_boundary_history_independent.** A typed slot crossed repeatedly: the k-th crossing is admitted iff
+the boundary admits that value for that declared type — whatever was offered, admitted or rejected before. -/
+theorem C07_boundary_history_independent (isA : Name → Name → Bool) (k : BKind) (t : Ty) :
+    ∀ (vs : List ValKind) (slot : Option ValKind), (storeRun isA k t slot vs).1 = vs.map (admits isA k t)
+  | [], _ => rfl
+  | v :: rest, slot => by
+    simp only [storeRun, List.map_cons]
+    rw [C07_boundary_history_independent isA k t rest]
+    unfold storeStep
+    cases admits isA k t v <;> simp
+
+/-- **C07_typed_slot_invariant.** A slot behind an exact boundary never holds a value outside its declared
+type, whatever sequence of stores is attempted: rejected stores leave the previous (well-typed) content. -/
+theorem C07_typed_slot_invariant (H : Hier) (isA : Name → Name → Bool) (hi : ∀ c n, isA c n = true ↔ IsA H c n)
+    (t : Ty) : ∀ (vs : List ValKind) (slot : Option ValKind), (∀ v, slot = some v → denote H t v) →
+    ∀ v, (storeRun isA .exact t slot vs).2 = some v → denote H t v
+  | [], slot, h0, v, h => h0 v h
+  | w :: rest, slot, h0, v, h => by
+    simp only [storeRun] at h
+    refine C07_typed_slot_invariant H isA hi t rest _ ?_ v h
+    intro u hu
+    unfold storeStep at hu
+    by_cases ha : admits isA .exact t w = true
+    · rw [if_pos ha] at hu
+      have hw : w = u := by simpa using hu
+      rw [← hw]
+      exact (C07_boundary_exact H isA hi t w).mp ha
+    · rw [if_neg ha] at hu
+      exact h0 u hu
+
+example : storeRun (fun _ _ => false) .exact .int none [.str, .int, .str, .null] = ([false, true, false, false], some .int) := by
+  decide
+
+/-- **C07_instantiation_history_independent.** `new` attempted repeatedly: the k-th outcome is the outcome of
+that `new` alone — a refusal recurs on every later attempt. -/
+theorem C07_instantiation_history_independent (W : Model.Inst.World) :
+    ∀ (ns live : List Model.Inst.Name), (Model.Inst.newRun W live ns).1 = ns.map (Model.Inst.instantiate W)
+  | [], _ => rfl
+  | n :: rest, live => by
+    simp only [Model.Inst.newRun, List.map_cons]
+    rw [C07_instantiation_history_independent W rest]
+    unfold Model.Inst.newStep
+    cases Model.Inst.instantiate W n <;> rfl
+
+/-- **C07_no_incomplete_instance.** Whatever sequence of `new` is attempted, every object that comes to exist
+is of a declared, non-abstract class that declares no abstract method and implements everything it inherits
+as abstract. -/
+theorem C07_no_incomplete_instance (W : Model.Inst.World) :
+    ∀ (ns live : List Model.Inst.Name) (n : Model.Inst.Name), n ∈ (Model.Inst.newRun W live ns).2 →
+      n ∈ live ∨ ∃ c, Model.Inst.getClass W n = some c ∧ c.isAbstract = false ∧ c.abstr = [] ∧ Spec.Inst.Complete W c
+  | [], _, _, h => Or.inl h
+  | m :: rest, live, n, h => by
+    simp only [Model.Inst.newRun] at h
+    rcases C07_no_incomplete_instance W rest _ n h with h1 | h1
+    · unfold Model.Inst.newStep at h1
+      cases hi : Model.Inst.instantiate W m with
+      | ok =>
+        rw [hi] at h1
+        simp only [List.mem_cons] at h1
+        rcases h1 with h2 | h2
+        · subst h2
+          exact Or.inr (C07_abstract_rules W n hi)
+        · exact Or.inl h2
+      | _ => rw [hi] at h1; exact Or.inl h1
+    · exact Or.inr h1
+
+example : Model.Inst.newRun ⟨[⟨1, none, [], true, [], [7]⟩, ⟨2, some 1, [], false, [], []⟩, ⟨3, some 1, [], false, [7], []⟩], []⟩ []
+    [2, 2, 3, 2, 1] = ([.missing, .missing, .ok, .missing, .abstr], [3]) := by decide
+
 /-! ## obligations on the regenerated tables (re-checked by `lake build` on every run) -/
 
 /-- every arm of every access node is at least as strict as the known findings say -/
